@@ -65,6 +65,10 @@ ALL = [
     ('P17-part-related-twice', ['C16'], lambda: docx(p(r('«1»body')), docrels=[('rId2', 'header', 'h.xml'), ('rId3', 'header', 'h.xml')], extra={'word/h.xml': f'<w:hdr {NS}>' + p(r('«2»head')) + '</w:hdr>'})),
     ('P17b-part-related-under-two-types', ['C16'], lambda: docx(p(r('«1»body')), docrels=[('rId2', 'http://example.com/relationships/pageTemplate', 'h.xml'), ('rId3', 'header', 'h.xml')], extra={'word/h.xml': f'<w:hdr {NS}>' + p(r('«2»head')) + '</w:hdr>'})),
     ('P29-cell-without-paragraph-after-text-cell', ['C02', 'C13', 'C01'], lambda: docx(tbl(tr(tc(p(r('«1»top'))), tc(p(r('«2»x')))), tr(tc(p(r('«3»keep me'))), tc('<w:altChunk r:id="rId50"/>', pr='<w:vMerge/><w:gridSpan w:val="2"/>'))))),
+    # constructs the line-coverage measurement (harness/tools/cover.py) showed no generated case reached
+    ('cov-math-text-outside-omath', ['C13', 'C01', 'C03', 'C07'], lambda: docx(p(r('«1»a'), '<m:r><m:t>«2»x&lt;y</m:t></m:r>', r('«3»b', '<w:b/>')))),
+    ('cov-two-comments-parts', ['C12', 'C13'], lambda: docx(p('<w:commentRangeStart w:id="0"/>', r('«1»a'), '<w:commentRangeEnd w:id="0"/>', r('«2»b')), comments=COM(0, 'first'),
+                                                          parts={'comments2.xml': ('comments', '<w:comments NS>' + COM(0, 'second') + '</w:comments>')})),
     ('plain-two-tables', ['C01', 'C02', 'C03', 'C05', 'C19', 'C13'], lambda: docx(p(r('«1»a')) + tbl(tr(tc(p(r('«2»b'))), tc(p(r('«3»c'))))) + p(r('«4»d')) + tbl(tr(tc(p(r('«5»e'))))))),
 ]
 
